@@ -43,7 +43,14 @@ def gen_expr(rng, exhaustive_pool=None):
             nb[rng.randrange(len(nb))] = rng.choice([2, 3])  # possibly inconsistent -> "Shapes do not align"
         name = names[a] if rng.random() < 0.9 or a == 0 else names[0]
         if name == names[0] and a > 0:
-            ind, nb = list(args[0][1]), list(args[0][2])  # repeated argument must agree with its numblocks entry
+            # the same array again (numblocks is keyed by name, so its block counts are those of the first
+            # occurrence), under the same or a PERMUTED index pattern (x 'ij' with x 'ji' as in matmul(a, a))
+            ind, nb = list(args[0][1]), list(args[0][2])
+            if len(ind) > 1 and rng.random() < 0.6:
+                if rng.random() < 0.5:
+                    nb = [nb[0]] * len(nb)          # square block grid: the permuted pattern is consistent
+                    args[0] = (args[0][0], args[0][1], list(nb))
+                ind = rng.sample(ind, len(ind))
         args.append((name, ind, nb))
     used = sorted({s for _, ind, _ in args for s in ind})
     r = rng.random()
@@ -421,6 +428,38 @@ def e2e(ctx, n):
                 ctx.fail("plan key function of add designates %s, index expression says %s" % (got, want), dict(case, out=oc))
 
 
+def e2e_same_array(ctx, n):
+    """the same array under two different index patterns: blockwise(f,'ij',a,'ij',a,'ji'), matmul(a, a), outer(v, v)"""
+    import numpy as np
+
+    import cubed
+    import cubed.array_api as xp
+    from cubed.core.ops import blockwise
+
+    spec = cubed.Spec(allowed_mem="200MB", reserved_mem=0)
+    for _ in range(n):
+        m = ctx.rng.choice([2, 3, 4, 6])
+        c = ctx.rng.choice([d for d in (1, 2, 3) if d <= m])
+        an = (np.arange(m * m, dtype="int64").reshape(m, m) * 7 + 3) % 23
+        case = {"n": m, "chunk": c}
+        og = bool(ctx.rng.getrandbits(1))
+        try:
+            a = xp.asarray(an, chunks=(c, c), spec=spec)
+            v = xp.asarray(an[0], chunks=(c,), spec=spec)
+            got = {
+                "a+a.T via blockwise(ij,ij,ji)": (blockwise(lambda x, y: x + y.T, "ij", a, "ij", a, "ji", dtype=an.dtype).compute(optimize_graph=og), an + an.T),
+                "matmul(a,a)": (xp.matmul(a, a).compute(optimize_graph=og), an @ an),
+                "outer(v,v)": (xp.linalg.outer(v, v).compute(optimize_graph=og), np.outer(an[0], an[0])),
+            }
+        except Exception as e:
+            ctx.fail("same-array expression raised %r" % (e,), case)
+            continue
+        for what, (r, want) in got.items():
+            ctx.count({"e2e_same_array": dict(case, expr=what)}, nontrivial=m > c, kind="e2e:same-array")
+            if r.shape != want.shape or not np.array_equal(r, want):
+                ctx.fail("%s returned wrong values (the same array under two index patterns)" % what, dict(case, expr=what, optimize_graph=og))
+
+
 def corr(ctx):
     corr_bw(ctx)
     corr_fusion(ctx, ctx.budget(150, 1500))
@@ -447,6 +486,7 @@ def oracle(ctx):
                 ctx.fail("key function designates %s, index expression designates %s" % (got, want),
                          {"out_ind": out, "args": args, "new_axes": new_axes, "out_coords": list(coords)})
     e2e(ctx, ctx.budget(40, 300))
+    e2e_same_array(ctx, ctx.budget(12, 80))
 
 
 def search(ctx):
